@@ -42,10 +42,27 @@ def rng(salt=''):
     return random.Random('%s/%s' % (seed(), salt))
 
 
+_created = []
+_main_pid = os.getpid()
+
+
+def _cleanup():
+    # the dumps of TLC (up to gigabytes in the thorough tier) are of no use once the run is over; VERIF_KEEP=1 keeps them
+    if os.getpid() == _main_pid and not os.environ.get('VERIF_KEEP'):
+        for d in _created:
+            shutil.rmtree(d, ignore_errors=True)
+
+
+import atexit
+atexit.register(_cleanup)
+
+
 def workdir(name):
     d = os.path.join(WORK, name)
     shutil.rmtree(d, ignore_errors=True)
     os.makedirs(d, exist_ok=True)
+    if os.getpid() == _main_pid:
+        _created.append(d)
     return d
 
 
